@@ -402,3 +402,30 @@ package retrypolicy
 //@   ensures [C12.retry.abortif_delegates+C02.builder.abortif] nd == 1 && dr == c.BaseAbortablePolicy && result_0 == asiface(c) && da == predicate
 //@   havoc
 //@   modifies *
+
+// policy-level success / failure listeners
+//@ func (*config).OnSuccess
+//@   builder
+//@   requires c != nil && c.BaseFailurePolicy != nil
+//@   ensures [C16.retry.listener_registered_onsuccess+C02.builder.onsuccess] c.onSuccess == listener && c.onFailure == old(c.onFailure) && result == asiface(c)
+//@   modifies c.BaseFailurePolicy.onSuccess
+//@ func (*config).OnFailure
+//@   builder
+//@   requires c != nil && c.BaseFailurePolicy != nil
+//@   ensures [C16.retry.listener_registered_onfailure+C02.builder.onfailure] c.onFailure == listener && c.onSuccess == old(c.onSuccess) && result == asiface(c)
+//@   modifies c.BaseFailurePolicy.onFailure
+
+//@ func (*config).WithDelayFunc
+//@   builder
+//@   requires c != nil && c.BaseDelayablePolicy != nil
+//@   ensures [C13.builder.delay_func] c.DelayFunc == delayFunc && c.Delay == old(c.Delay) && c.maxDelay == old(c.maxDelay) && result == asiface(c)
+//@   modifies c.BaseDelayablePolicy.DelayFunc
+
+// ExceededError: matches the sentinel and itself; unwraps to the last error when there is one
+//@ func (ExceededError).Is
+//@   ensures [C02.exceeded.is_sentinel] err == ErrExceeded ==> result
+//@   modifies nothing
+//@ func (ExceededError).Unwrap
+//@   ensures [C02.exceeded.unwraps_last_error+C10.exceeded.unwraps_last_error] e.LastError != nil ==> result == e.LastError
+//@   havoc
+//@   modifies *
